@@ -14,22 +14,22 @@ CHECKS = {
   "All 140 (matrix, range, depth, storage) configurations: every one of the 2^24 code triples at 8 bit (2^27 / 2^30 at 9 / 10 bit in thorough); above that the axis-exhaustive cross (every code of every plane x 15^2 boundary cross-terms) plus a full lattice product. Each state is decoded by the real Rgb::try_from(&Yuv<T>) and compared with an independent f64 closed form at the property's own 3e-6 budget. The check equals the property for 8..10 bit and is a stated finite bound above.",
   TRUST + "Pointwiseness above 10 bit is decided by C11."),
  "C02": (E1, "exhaustive product lattice + rounding-edge preimages of every code, real encoder vs f64 H.273 quantisation",
-  "140 configurations x (full product of a 41/401-value axis alphabet on [-0.5,1.5] with f32 neighbours of the special points) + preimages of c, c+.5-eps, c+.5+eps for EVERY code c of every plane + gamut corners; each pixel goes through the real Yuv::try_from((&Rgb,cfg)) and must be within 0.5+1e-6*2^n of the ideal computed from the actual f32 inputs. The continuous cube is bounded by the stated alphabet; the code axis is complete.",
+  "140 configurations x (full product of an 81/401-step axis alphabet on [-0.5,1.5] with f32 neighbours of the special points) + preimages of c, c+.5-eps, c+.5+eps for EVERY code c of every plane + gamut corners; each pixel goes through the real Yuv::try_from((&Rgb,cfg)) and must be within 0.5+1e-6*2^n of the ideal computed from the actual f32 inputs. The continuous cube is bounded by the stated alphabet; the code axis is complete.",
   TRUST + "The lattice bounds the continuous input cube."),
  "C03": (E1, "complete enumeration of all f32 in [0,1] through every transfer curve, both directions, vs f64 defining formulas",
-  "thorough: all 1,065,353,217 f32 values of [0,1] x 14 characteristics x 2 directions through the real LinearRgb::try_from(Rgb) / Rgb::try_from((LinearRgb,t,p)) - the check is the property. quick: every f32 with low 8 mantissa bits zero (4.2 M, every binade) plus 513-value neighbourhoods of all branch thresholds.",
+  "thorough: all 1,065,353,217 f32 values of [0,1] x 14 characteristics x 2 directions through the real LinearRgb::try_from(Rgb) / Rgb::try_from((LinearRgb,t,p)) - the check is the property. quick: every f32 with low 6 mantissa bits zero (16.6 M, every binade) plus 513-value neighbourhoods of all branch thresholds.",
   TRUST + "xvYCC read as the 2.4 power on [0,1]; PQ scene-referred with BT.2100's rounded constants (DESIGN 2.3)."),
  "C04": (E1, "full product of a near-black-dense axis alphabet on [0,4]^3 and a negative well-conditioned lattice vs f64 opsin/cbrt model",
-  "Every pixel of a 96^3 (quick) / 1040^3 (thorough) product alphabet (0, subnormal, 4*2^-k, uniform grid) and of the [-1,4]^3 lattice filtered by the statement's conditioning predicate goes through the real Xyb::from(LinearRgb) and is compared at 2e-6 with the definition quoted in the property.",
+  "Every pixel of a 240^3 (quick) / 1540^3 (thorough) product alphabet (0, subnormal, 4*2^-k, uniform grid) and of the [-1,4]^3 lattice filtered by the statement's conditioning predicate goes through the real Xyb::from(LinearRgb) and is compared at 2e-6 with the definition quoted in the property.",
   TRUST),
  "C05": (E1, "full product alphabet on [0,1]^3 through the real forward and inverse XYB transforms",
   "LinearRgb -> Xyb -> LinearRgb on every pixel of the product alphabet (same shape as C04) must return the pixel within 5e-5; the forward transform is the oracle, as the property intends.",
   "No reference constants involved; lattice bounds the continuous cube."),
  "C06": (E1, "full product lattice on [-0.5,2]^3 x 11 primaries x 2 directions vs f64 CIE/Bradford derivation",
-  "All 22 directed pairs on the 26^3 (quick) / 251^3 (thorough) lattice plus basis vectors, white and greys: result vs M_out^-1*Bradford*M_in from the H.273 chromaticities, white preservation, there-and-back, bit-exact identity for equal primaries.",
+  "All 22 directed pairs on the 51^3 (quick) / 501^3 (thorough) lattice plus basis vectors, white and greys: result vs M_out^-1*Bradford*M_in from the H.273 chromaticities, white preservation, there-and-back, bit-exact identity for equal primaries.",
   TRUST + "The map is linear, so the basis vectors determine it; the lattice bounds rounding."),
- "C07": ("E2+E1 (staged, child processes)", "exhaustive geometry / deviation-bounded / float-pattern enumeration with assertion hooks before every unsafe operation, in release and checked builds, each stage in a child process",
-  "Every frame of the small geometry box (full product) and every 0-, 1- and 2-deviation neighbour of every well-formed frame up to 12x12 (+63..65) is built through the public frame types; accepted frames run every conversion with bounds hooks armed. Encodes of every float-image size x subsampling, every f32 bit pattern (thorough: all 2^32) into every curve in both directions with the to_int_unchecked hook armed, and special-float cubes through every composite conversion. A hook firing, an accepted frame whose chroma planes cannot cover the luma plane, or the death of a child process (std ub_checks, allocator-detected corruption; bisected, replay confirmed natively or under valgrind) is a violation.",
+ "C07": ("E2+E1+E3 (staged, child processes)", "exhaustive geometry / deviation-bounded / float-pattern enumeration with assertion hooks before every unsafe operation, in release and checked builds, each stage in a child process",
+  "Every frame of the small geometry box (full product) and every 0-, 1- and 2-deviation neighbour of every well-formed frame up to 12x12 (+63..65) is built through the public frame types; accepted frames run every conversion with bounds hooks armed. Encodes of every float-image size x subsampling, every f32 bit pattern (thorough: all 2^32) into every curve in both directions with the to_int_unchecked hook armed, special-float cubes through every composite conversion, and (stateright, /verif/seq) every public call sequence up to depth 4/5 with at most 1/2 poke deviations. A hook firing, an accepted frame whose chroma planes cannot cover the luma plane, or the death of a child process (std ub_checks, allocator-detected corruption; bisected, replay confirmed natively or under valgrind) is a violation.",
   "Hooks cover the 5 unsafe sites of the two crates; frames are built through Plane::new/from_slice (not by corrupting PlaneConfig). Call-sequence depth beyond single conversions and round trips is bounded (see DESIGN)."),
  "C08": (E1, "exhaustive enumeration of (config x code triple) spaces through the real decode+encode round trip",
   "Same domain as C01 (all 2^24 triples at 8 bit for all 28 matrix/range/storage configs; 9 and 10 bit complete in thorough; axis cross + lattice above): decode, re-encode with the same config, compare code by code with the input clamped to the legal range; only full-range chroma 0->1 tolerated.",
@@ -46,8 +46,8 @@ CHECKS = {
  "C12": (E2, "exhaustive small-box product + deviation-bounded enumeration of frame geometries vs a reference acceptance predicate",
   "Full product of the small geometry box, every well-formed base with every single and pair of deviations, one out-of-range sample at EVERY raw buffer position (visible and padding) for depths 8..15, and all (len,w,h) in 0..=40 cubed for the four float constructors: accept <=> predicate, the error variant must name a violated condition, accepted images are verbatim.",
   "Predicate transcribed from the statement (mc/src/geom.rs); a wrong-size chroma plane may be reported as any of the three geometry errors (DESIGN 2.3)."),
- "C13": ("E1 (staged, child processes)", "exhaustive special-value cubes and stratified bit-pattern sweeps through every conversion and supported config, release and checked builds, child processes",
-  "48^3 special-float cubes through all 14x11 curve/primaries pairs both ways, all 140 encode configs, XYB, HSL and the composite paths over curves x primaries x matrices x ranges x depths; every f32 pattern with low 12 (quick) / 8 (thorough) bits all-0/all-1 on each component; unit-cube lattice for finiteness. No panic/abort, every produced code <= 2^n-1 and re-wrappable.",
+ "C13": ("E1+E3 (staged, child processes)", "exhaustive special-value cubes and stratified bit-pattern sweeps through every conversion and supported config, release and checked builds, child processes",
+  "48^3 special-float cubes through all 14x11 curve/primaries pairs both ways, all 140 encode configs, XYB, HSL and the composite paths over curves x primaries x matrices x ranges x depths; every f32 pattern with low 12 (quick) / 8 (thorough) bits all-0/all-1 on each component; unit-cube lattice for finiteness; stateright call sequences to depth 4/5. No panic/abort, every produced code <= 2^n-1 and re-wrappable.",
   "4:4:4 dimensions (other sizes: C07/C11/C12)."),
  "C14": (E1, "complete enumeration of all 3276 fully specified metadata triples x 10 conversions with a metamorphic offending-field oracle",
   "Every (matrix, primaries, transfer) triple without Unspecified x {u8/8,u16/10} x {limited,full} x 5 forward/reverse conversion pairs: never panics, errors are Unsupported* and name an offending field (replacing only that field removes the error), support is symmetric, single-stage pairs agree on the error, supported sets succeed, YUV<->RGB is bit-identical across all 234 label pairs. The check equals the property.",
@@ -59,7 +59,7 @@ CHECKS = {
   "All 130,816 luma codes x 140 configs (spread, exact black, white), 2^20+ grey levels through 14 curves x 2 directions, 22 primaries directions, XYB and HSL.",
   "The 2^20 grid + 2^-k stratum stands for the continuous linear grey axis; the code axis is complete."),
  "C17": (E1, "full product lattice of [0,1]^3 plus near-grey / near-boundary shells vs the f64 hexcone model",
-  "256^3 (quick) / 1024^3 (thorough) RGB lattice plus shells at 1 ulp..1e-5 from every sextant boundary: range, hexcone agreement (L 1e-6, S 1e-4, H 0.01 deg), RGB->HSL->RGB within 1e-5; 1453 hues x 67^2 (S,L) for L=0 black / L=1 white.",
+  "400^3 (quick) / 2048^3 (thorough) RGB lattice plus shells at 1 ulp..1e-5 from every sextant boundary: range, hexcone agreement (L 1e-6, S 1e-4, H 0.01 deg), RGB->HSL->RGB within 1e-5; 1453 hues x 67^2 (S,L) for L=0 black / L=1 white.",
   TRUST),
  "C18": (E1, "complete enumeration of all 2^32 arguments of cbrtf and expf; exhaustive grids for powf; vs f64 libm",
   "cbrtf and expf on every f32 bit pattern (accuracy, oddness, tails, totality with the hook armed); powf on every positive normal x (thorough; 8.3 M in quick) for each of the 12 exponents the library uses, base 10 over the log-curve stratum, and a 254 x 1024 x 1601 (x,y) product; special x special for totality.",
@@ -113,6 +113,8 @@ def main():
              "kind_free_text": "frame-geometry space: full small-box product plus deviation-bounded (0,1,2 deviations) neighbourhoods of every well-formed frame, built through the public frame types"},
             {"name": "staged-child-isolation", "path": "/verif/mc/src/explore.rs", "serves_properties": ["C07", "C13"],
              "kind_free_text": "stages run in child processes; a dying child is classified (UB evidence vs resource), bisected to one case or a minimal range, and the replay is confirmed natively or under valgrind"},
+            {"name": "E3-call-sequences", "path": "/verif/seq", "serves_properties": ["C07", "C13"],
+             "kind_free_text": "stateright explicit-state BFS over all public constructor/conversion call sequences (depth 4 quick / 5 thorough, <= 1 / 2 poke deviations); each transition runs the real conversion; always-invariants on every state; parallel and single-threaded runs must agree on the unique-state count"},
             {"name": E4, "path": "/verif/mc/src/props/c20.rs", "serves_properties": ["C20"],
              "kind_free_text": "the build configuration as an enumerated input: 8 target directories, per-build exploration plus pairwise output comparison"},
         ],
